@@ -120,6 +120,7 @@ func checkMain(args []string) int {
 	replayPath := fs.String("replay", "", "re-run a replay file")
 	writeLock := fs.Bool("write-lock", false, "record the discharged obligations in obligations.lock (reference tree only)")
 	noEvidence := fs.Bool("no-evidence", false, "do not write evidence (used by selftest)")
+	replayDirFlag := fs.String("replay-dir", "", "directory for replay files (default <verif>/replays)")
 	fs.Parse(args)
 	if *replayPath != "" {
 		return replayMain(*repo, *replayPath)
@@ -186,6 +187,9 @@ func checkMain(args []string) int {
 		}
 	}
 	replayDir := filepath.Join(*root, "replays", id)
+	if *replayDirFlag != "" {
+		replayDir = filepath.Join(*replayDirFlag, id)
+	}
 	for _, o := range pr.obls {
 		solverSeconds += o.Seconds
 		if o.Kind == "vacuity" {
@@ -267,6 +271,24 @@ func checkMain(args []string) int {
 			}
 		}
 		if r != nil && r.Plan != nil && len(o.Model) > 0 {
+			// prefer a small model: the same obligation with every input
+			// string/slice bounded to 24 elements (phase 2 of DESIGN §6).
+			var small []Term
+			for _, p := range r.Plan.Params {
+				collectLens(p.Val, &small)
+				if p.Pointee != nil {
+					collectLens(*p.Pointee, &small)
+				}
+			}
+			if len(small) > 0 {
+				o3 := *o
+				o3.Guard = and(append([]Term{o.Guard}, small...)...)
+				o3.Name = o.Name + "~small"
+				o3.Solve(work, timeout, false)
+				if o3.Status == "sat" && len(o3.Model) > 0 {
+					o.Model = o3.Model
+				}
+			}
 			src, predicted, _, note := v.BuildReplay(r, o)
 			rf.ReplayNote = note
 			if src != "" {
@@ -444,6 +466,17 @@ func checkMain(args []string) int {
 	fmt.Printf("property=%s tier=%s obligations=%d discharged=%d violations=%d undecided=%d wall=%.1fs\n",
 		id, *tier, total, discharged, violations, len(undecided), time.Since(start).Seconds())
 	return exit
+}
+
+func collectLens(v Val, out *[]Term) {
+	switch v.K {
+	case KSlice:
+		*out = append(*out, app("bvsle", v.Len, bvLit(64, 24)), eq(v.Off, bvLit(64, 0)))
+	case KStruct, KTuple:
+		for _, f := range v.Fields {
+			collectLens(f, out)
+		}
+	}
 }
 
 func isNamedKind(name string) bool {
